@@ -223,8 +223,15 @@ func MemoryExceeded() (bool, string) {
 	}
 	var ms runtime.MemStats
 	runtime.ReadMemStats(&ms)
+	if int(ms.HeapAlloc>>20) <= mb {
+		return false, ""
+	}
+	// HeapAlloc counts garbage that has not been collected yet (the state set of a search that has just ended):
+	// collect, then decide
+	runtime.GC()
+	runtime.ReadMemStats(&ms)
 	if used := int(ms.HeapAlloc >> 20); used > mb {
-		return true, fmt.Sprintf("memory budget reached (heap %d MB > %d MB)", used, mb)
+		return true, fmt.Sprintf("memory budget reached (live heap %d MB > %d MB)", used, mb)
 	}
 	return false, ""
 }
